@@ -150,11 +150,8 @@ impl Sub for I64 {
             (Num(lhs), Num(rhs)) => match lhs.checked_sub(rhs) {
                 Some(n) => Num(n),
                 None => {
-                    if lhs > 0 && rhs < 0 || lhs < 0 && rhs > 0 {
-                        PlusInf
-                    } else {
-                        MinusInf
-                    }
+                    // overflow: either rhs < 0 <= lhs or lhs < 0 < rhs
+                    if lhs >= 0 { PlusInf } else { MinusInf }
                 }
             },
             (NaN, _) | (_, NaN) | (MinusInf, MinusInf) | (PlusInf, PlusInf) => NaN,
